@@ -111,6 +111,9 @@ var handShaped = []string{
 	"/p 1 array def p 0 {p 0 get exec} put p 0 get exec", // procedure stored in a container reachable from itself
 	"{1} loop", "{1 dict begin} loop", "{} loop", "{dup} loop", "1 {dup} loop", "{count} loop",
 	"{{1} exec} loop", "0 1 1000000 {} for", "0 0 1 {} for", "0 0 1 {pop} for", "1000000 {1} repeat", "1000000 {} repeat",
+	// loops announced for many rounds and left early: what counts is what is executed
+	"0 1000 { 1 add dup 3 eq { exit } if } repeat", "50 { pop } repeat", "1000000 { exit } repeat 5", "100000 { stop } repeat",
+	"0 1 1000000 { 2 eq { exit } if } for 6", "0 1 1000000 { pop pop } for", "65536 array { pop exit } forall 7", "4096 string { 1 (a) add } forall",
 	// operators whose work depends on a size: each still counts as one operation
 	"65536 string pop 1 2 add pop", "65536 array pop 1 2 add pop", "65536 dict pop 1 2 add pop",
 	"1024 string 1023 get pop 1", "4096 array 0 4096 getinterval length", "2000 array dup 0 1000 array putinterval length 1 add",
@@ -695,7 +698,14 @@ func startBody(c *mc.Ctx, item int) mc.Verdict {
 		if len(intp.Stack) != 0 || intp.NumOps != 0 || len(intp.DSC) != 0 {
 			return fail("executed-before-check", fmt.Sprintf("stack depth %d, NumOps %d after rejection", len(intp.Stack), intp.NumOps))
 		}
-		// the check stays armed: a later call with a proper start is accepted
+		// the check stays armed: a rejected input has not "passed" it, so further
+		// inputs without a proper start are rejected as well ...
+		for _, again := range []string{input, "9 ", "\n%!PS\n9 "} {
+			if e := intp.ExecuteString(again); e != postscript.ErrNoPostScript || len(intp.Stack) != 0 || intp.NumOps != 0 {
+				return fail("not-rejected-after-a-rejection", fmt.Sprintf("after the rejection a further call with %q: err=%s, stack depth %d, NumOps %d (CheckStart=%v)", again, errStr(e), len(intp.Stack), intp.NumOps, intp.CheckStart))
+			}
+		}
+		// ... and a later call with a proper start is accepted
 		err2 := intp.ExecuteString("%!\n8")
 		if err2 != nil || len(intp.Stack) != 1 {
 			return fail("rejected-after-failed-check", fmt.Sprintf("second call with %%! start: err=%s stack=%d", errStr(err2), len(intp.Stack)))
@@ -831,7 +841,7 @@ func main() {
 				},
 				{
 					Name: "start-check", Items: 65536 + 1 + 256 + len(startPrefixes), Body: startBody, Budget: budget,
-					Rule: "CheckStart=true with every two-byte prefix (65,536) followed by a newline and a token, the empty input, every one-byte input, and `%!PS` behind every string of 1..3 white-space bytes, a comment line, a byte-order mark, ^D and a printer job header; x 3 continuations on the same interpreter once the check has passed; non-trivial = every case",
+					Rule: "CheckStart=true with every two-byte prefix (65,536) followed by a newline and a token, the empty input, every one-byte input, and `%!PS` behind every string of 1..3 white-space bytes, a comment line, a byte-order mark, ^D and a printer job header; x 3 continuations on the same interpreter once the check has passed; after a rejection three more inputs without a proper start must be rejected too, then one with `%!` accepted; non-trivial = every case",
 				},
 			}
 		},
